@@ -409,6 +409,7 @@ fn replay(path: &str) -> i32 {
     let res = match v["engine"].as_str().unwrap_or("") {
         "pratt" => eng_pratt::replay(&v),
         "text" => eng_text::replay(&v),
+        "nested" => eng_nested::replay(&v),
         "leftrec" | "rec" | "rec-life" | "rec-depth" | "rec-define" => eng_rec::replay(&v),
         _ => cvh::replay::replay(&v),
     };
